@@ -418,7 +418,7 @@ theorem iee_parse_reads_layout (p : Bytes) (x : IeeCtx) (hx : ieeParseBlob p = s
         subst hx
         simp only [ieeBlobSize, ieeBlobOffVersion, ieeBlobOffAttr, ieeBlobOffPageOffset, ieeBlobOffKey1, ieeBlobOffKey2,
           ieeBlobOffStart, ieeBlobOffEnd, ieeBlobOffCrc, ieeKeyFieldSize, ieeHeaderTag, ieeKeyblobVersion]
-        refine ⟨by omega, ?_, ?_, rfl, rfl, rfl, rfl, rfl, rfl, rfl, ?_⟩
+        refine ⟨by omega, ?_, ?_, trivial, trivial, trivial, trivial, trivial, trivial, trivial, ?_⟩
         · exact Classical.byContradiction (fun hh => h2 (Or.inl hh))
         · exact Classical.byContradiction (fun hh => h2 (Or.inr hh))
         · exact Classical.byContradiction (fun hh => h3 hh)
